@@ -808,6 +808,57 @@ class Runner:
                     seen[(name, "flagged" if after > before else "accepted")] += 1
         return seen
 
+    def stream_illtyped(self, versions):
+        """programs whose parts do not fit together: the compiler may refuse them (the expected outcome), but whatever it
+        accepts must still keep the stack discipline"""
+        I, U = pt.Int, pt.TealType.uint64
+        c1, c2 = (lambda: pt.Txn.fee()), (lambda: pt.Txn.amount())
+
+        def sub_bare_return():
+            @pt.Subroutine(U)
+            def half(x):
+                return pt.Seq(pt.If(x % I(2)).Then(pt.Return()), pt.Return(x / I(2)))
+            return pt.Seq(pt.Pop(half(I(7)) + I(1)), pt.Approve())
+
+        def sub_none_body():
+            @pt.Subroutine(U)
+            def f(x):
+                return pt.Pop(x)
+            return pt.Seq(pt.Pop(f(I(7))), pt.Approve())
+
+        builders = [
+            ("elseif-value-then-none", lambda: pt.Seq(pt.Pop(pt.If(c1()).Then(I(1)).ElseIf(c2()).Then(pt.Pop(I(1)))), pt.Approve())),
+            ("elseif-value-no-else", lambda: pt.Seq(pt.Pop(pt.If(c1()).Then(I(1)).ElseIf(c2()).Then(I(2))), pt.Approve())),
+            ("elseif-none-then-value", lambda: pt.Seq(pt.If(c1()).Then(pt.Pop(I(1))).ElseIf(c2()).Then(I(2)), pt.Approve())),
+            ("elseif-uint-then-bytes", lambda: pt.Seq(pt.Pop(pt.If(c1()).Then(I(1)).ElseIf(c2()).Then(pt.Bytes("a")).Else(I(3))), pt.Approve())),
+            ("elseif-chain-3", lambda: pt.Seq(pt.Pop(pt.If(c1()).Then(I(1)).ElseIf(c2()).Then(I(2)).ElseIf(c1()).Then(pt.Pop(I(3)))), pt.Approve())),
+            ("if-value-without-else", lambda: pt.Seq(pt.Pop(pt.If(c1()).Then(I(1))), pt.Approve())),
+            ("cond-mixed", lambda: pt.Seq(pt.Pop(pt.Cond([c1(), I(1)], [c2(), pt.Pop(I(2))])), pt.Approve())),
+            ("seq-value-in-the-middle", lambda: pt.Seq(I(1), pt.Approve())),
+            ("while-value-body", lambda: pt.Seq(pt.While(c1()).Do(I(1)), pt.Approve())),
+            ("for-value-step", lambda: pt.Seq(pt.For(pt.Pop(I(0)), c1(), I(1)).Do(pt.Pop(I(2))), pt.Approve())),
+            ("sub-bare-return", sub_bare_return), ("sub-none-body", sub_none_body),
+            ("assert-none", lambda: pt.Seq(pt.Assert(pt.Pop(I(1))), pt.Approve())),
+            ("return-none-in-main", lambda: pt.Seq(pt.If(c1()).Then(pt.Return()), pt.Approve())),
+        ]
+        out = Counter()
+        for name, build in builders:
+            for version in versions:
+                for ss, fp in [(False, False)] + ([(False, True)] if version >= 8 else []):
+                    try:
+                        with quiet_traces():
+                            expr = build()
+                    except Exception as e:  # noqa: BLE001
+                        out[f"{name}:refused when built ({type(e).__name__})"] += 1
+                        continue
+                    res = compile_api(expr, pt.Mode.Application, version, ss, fp)
+                    if res[0] != "ok":
+                        out[f"{name}:refused when compiled ({res[1][:40]})"] += 1
+                        continue
+                    out[f"{name}:ACCEPTED"] += 1
+                    self.judge("illtyped", name, res[1], [], version, (ss, fp), {"stream": "illtyped", "name": name})
+        return out
+
     def stream_golden(self):
         files = sorted(list((REPO / "tests").rglob("*.teal")) + list((REPO / "examples").rglob("*.teal")))
         n = bad = 0
@@ -868,6 +919,7 @@ def run(tier: str) -> int:
     run_.stream_router([6, 8, 10] if quick else [6, 7, 8, 9, 10])
     run_.stream_multi([2, 5, 8, 10] if quick else list(range(2, 11)))
     exotic = run_.stream_exotic([2, 6, 8, 10] if quick else list(range(2, 11)))
+    illtyped = run_.stream_illtyped([4, 6, 8] if quick else list(range(4, 11)))
     gold_n, gold_bad = run_.stream_golden()
     d.close()
     s = run_.st
@@ -891,6 +943,7 @@ def run(tier: str) -> int:
         "distinct_nontrivial": len(s.distinct) + gold_n,
         "rule": "every program: real compile -> TEAL -> c05-check (infer certificate, decide with the proved `ok`); all paths of each program",
         "programs_accepted": s.accepted,
+        "ill_typed_stream": dict(sorted(illtyped.items())),
         "instructions_checked": s.pcs,
         "abstract_states": s.states,
         "max_height": s.max_height,
